@@ -9,7 +9,9 @@ def check(ctx):
         "stale sweep (whose vector is pushed only under cancelable == false); no other path builds records; R2 phases "
         "in dominance order Start<Drop, Start<Submit, Drop<Commit, Submit<Commit; R3 Span::drop submits before it "
         "commits; R4 one Reporter::report call per cycle, outside loops, fed by the single records vector; R5 the "
-        "future/stream/sink adapters release the local-parent guard before finishing their span (C13-R3/C14-R3).")
+        "future/stream/sink adapters release the local-parent guard before finishing their span (C13-R3/C14-R3); R6 the "
+        "receiver drain loops until try_recv reports an empty (or closed) channel, forwarding every command; R7 the "
+        "per-item fan-out of a shared span set leaves only by exhaustion.")
     ctx.not_decided = ("inclusion of a child that finished on another thread before the root: receivers are drained "
                        "one after another, so the child's submit can be read one cycle after the root's commit "
                        "(limitation L1 of DESIGN.md; no code shape distinguishes the schedules).")
@@ -19,6 +21,10 @@ def check(ctx):
         collector.rule_release_sites(ctx, c, "R1", what=("classify", "sweep_guard", "stale_guard"))
         collector.rule_phase_order(ctx, c, "R2", [("start", "drop"), ("start", "submit"), ("drop", "commit"), ("submit", "commit")])
         collector.rule_report(ctx, c, "R4", what=("once", "arg"))
+        # a trace is whole only if every queue is drained to empty in the cycle that sees the commit, and a span set
+        # shared with other traces reaches every one of them
+        collector.rule_drain_keeps_live(ctx, c, "R6")
+        spanrules.rule_fanout(ctx, c, "R7")
     spanrules.rule_drop_order(ctx, facts, "R3")
     # R5
     n = 0
